@@ -511,4 +511,305 @@ theorem v5Datum_render (kvs : List (String × J)) (d : Option Payload) (dh : Opt
     subst hdh
     simp [v5Datum, J.field, h1, h2, hj, J.truthy, hexStr_ne_empty b hne, optStr, J.eqPrim, J.asStr, fromHex_hexStr]
 
+/-! ### Ogmios v6 -/
+
+theorem plutusLang_facts (n : Nat) (h : n = 1 ∨ n = 2 ∨ n = 3) :
+    plutusVersion (plutusLang n) = .ok (n : Int) ∧ startsPlutusV (plutusLang n) = true := by
+  rcases h with rfl | rfl | rfl <;> exact ⟨by rfl, by decide⟩
+
+theorem v6Script_render (s : ScriptM) (h : scriptOK [1, 2, 3] (some s) = true) :
+    v6Script (v6ScriptJ s) = .ok (some s) := by
+  obtain ⟨lang, body⟩ := s
+  cases body with
+  | json j => simp [scriptOK] at h; omega
+  | bytes b =>
+    simp [scriptOK] at h
+    obtain ⟨hv, hp⟩ := plutusLang_facts lang h.1
+    have hr : (1 : Int) ≤ lang ∧ (lang : Int) ≤ 3 := by omega
+    simp [v6Script, v6ScriptJ, J.truthy, J.field, J.lookup, J.asStr, h.2, hp, hv, fromHex_hexStr, hr]
+
+theorem v6Outer_ada (c : J) (rest : List (String × J)) (ma : MultiAsset) :
+    v6Outer (("ada", c) :: rest) ma = v6Outer rest ma := by simp [v6Outer]
+
+theorem v6Value_render (u : UTxOModel) (h : WellFormed u) : v6Value (v6ValueJ u) = .ok (u.coin, u.ma) := by
+  have hr := h.rebuild
+  have ho := onlyAda_render (.obj [("lovelace", .num u.coin)]) u.ma h.sizes
+  have hv := v6Outer_policies u.ma [] h.sizes
+  by_cases hm : u.ma = []
+  · simp only [hm, List.isEmpty_nil, List.map_nil] at ho
+    simp [v6Value, v6ValueJ, J.getN, J.getD, J.lookup, J.asObj, ho, J.asInt, hm]
+  · have he : u.ma.isEmpty = false := by simpa using hm
+    rw [he] at ho
+    simp [v6Value, v6ValueJ, J.getN, J.getD, J.lookup, J.asObj, ho, J.asInt, v6Outer_ada, hv, hr]
+
+
+theorem optStr_eq (o : Option Bytes) : (o.map fun h => J.str (hexStr h)).getD .null = optStr o := by
+  cases o <;> rfl
+
+theorem v6Datum_render (d : Option Payload) (dh : Option Bytes) (hb : bytesPayload d = true)
+    (hx : dh.isNone ∨ d.isNone) : v6Datum ((d.map payloadJ).getD .null) (optStr dh) = .ok d := by
+  rcases datumHexJ_cases d hb with ⟨rfl, _⟩ | ⟨b, hne, rfl, _⟩
+  · simp [v6Datum, J.truthy]
+  · have hdh : dh = none := by simpa using hx
+    subst hdh
+    simp [v6Datum, J.truthy, payloadJ, hexStr_ne_empty b hne, J.eqPrim, J.asStr, fromHex_hexStr, optStr]
+
+theorem v6Script_opt (s : Option ScriptM) (h : scriptOK [1, 2, 3] s = true) :
+    v6Script ((s.map v6ScriptJ).getD .null) = .ok s := by
+  cases s with
+  | none => simp [v6Script, J.truthy]
+  | some s => simpa using v6Script_render s h
+
+theorem lookup_append (a b : List (String × J)) (k : String) :
+    J.lookup (a ++ b) k = (J.lookup a k).orElse fun _ => J.lookup b k := by
+  induction a with
+  | nil => simp [J.lookup]
+  | cons p r ih =>
+    simp only [List.cons_append, J.lookup]
+    split <;> simp [ih]
+
+theorem lookup_optMember (k k' : String) (o : Option J) :
+    J.lookup (optMember k o) k' = if k = k' then o else none := by
+  cases o <;> simp [optMember, J.lookup]
+
+/-! ### cardano-cli -/
+
+/-- an inline datum, if any, is in JSON form (cardano-cli) -/
+def jsonPayload (d : Option Payload) : Bool :=
+  match d with
+  | some (.bytes _) => false
+  | _ => true
+
+theorem digit_ne_hash (c : Char) (h : (digitVal c).isSome) : c ≠ '#' := by
+  intro hc; subst hc; revert h; decide
+
+theorem intStr_no_hash (i : Int) : ∀ c ∈ (intStr i).toList, c ≠ '#' := by
+  intro c hc
+  cases i with
+  | ofNat n =>
+    simp [intStr] at hc
+    exact digit_ne_hash c (natDigits_digits n c hc)
+  | negSucc n =>
+    simp [intStr] at hc
+    rcases hc with rfl | hc
+    · decide
+    · exact digit_ne_hash c (natDigits_digits _ c hc)
+
+theorem cliTxIn_render (u : UTxOModel) (h : u.txId.length = 32) : cliTxIn (cliKey u) = .ok (u.txId, u.index) := by
+  have hs : splitOn '#' (hexChars u.txId ++ '#' :: (intStr u.index).toList) = [hexChars u.txId, (intStr u.index).toList] := by
+    rw [splitOn_append _ _ _ (fun c hc => (hexChars_not_sep u.txId c hc).2), splitOn_none _ _ (intStr_no_hash u.index)]
+  have ht : txIdOf (String.ofList (hexChars u.txId)) = .ok u.txId := constrained_hexStr 32 32 u.txId (by omega)
+  simp [cliTxIn, cliKey, hs, parseInt_intStr, ht]
+
+theorem cliDatumHash_render (kvs : List (String × J)) (dh : Option Bytes)
+    (h1 : J.lookup kvs "datumhash" = some (optStr dh)) (h : ∀ x ∈ dh, x.length = 32) :
+    cliDatumHash (.obj kvs) = .ok dh := by
+  cases dh with
+  | none => simp [cliDatumHash, J.getN, J.getD, h1, optStr, J.isNull]
+  | some x =>
+    have hx : x.length = 32 := h x rfl
+    simp [cliDatumHash, J.getN, J.getD, h1, optStr, J.isNull, constrainedJ, J.asStr, constrained_hexStr 32 32 x (by omega)]
+
+theorem cliDatum_render (kvs : List (String × J)) (aux : Aux) (d : Option Payload)
+    (h1 : J.lookup kvs "datum" = some .null)
+    (h2 : J.lookup kvs "inlineDatumhash" = some (cliInlineHashJ aux d))
+    (h3 : J.lookup kvs "inlineDatum" = some (cliInlineJ d))
+    (hj : jsonPayload d = true) (ha : aux.inlineHash.length = 32) : cliDatum (.obj kvs) = .ok d := by
+  cases d with
+  | none => simp [cliDatum, J.getN, J.getD, h1, h2, J.truthy, cliInlineHashJ]
+  | some p =>
+    cases p with
+    | bytes b => simp [jsonPayload] at hj
+    | json j =>
+      have hne : hexStr aux.inlineHash ≠ "" := hexStr_ne_empty _ (by intro h0; simp [h0] at ha)
+      simp [cliDatum, J.getN, J.getD, h1, h2, h3, J.truthy, hne, J.field, payloadJ, cliInlineHashJ, cliInlineJ]
+
+theorem cliScriptRef_render (kvs : List (String × J)) (s : Option ScriptM)
+    (h1 : J.lookup kvs "referenceScript" = some (cliScriptJ s)) (hs : scriptOK [1, 2] s = true) :
+    cliScriptRef (.obj kvs) = .ok s := by
+  cases s with
+  | none => simp [cliScriptRef, J.getN, J.getD, h1, cliScriptJ, J.truthy]
+  | some s =>
+    obtain ⟨lang, body⟩ := s
+    cases body with
+    | json j => simp [scriptOK] at hs; omega
+    | bytes b =>
+      simp [scriptOK] at hs
+      rcases hs.1 with rfl | rfl
+      · simp [cliScriptRef, J.getN, J.getD, h1, cliScriptJ, J.truthy, cliScript, J.field, J.lookup, J.asStr,
+          cliScriptType, fromHex_hexStr]
+      · simp [cliScriptRef, J.getN, J.getD, h1, cliScriptJ, J.truthy, cliScript, J.field, J.lookup, J.asStr,
+          cliScriptType, fromHex_hexStr]
+
+/-! ### Blockfrost -/
+
+theorem bfItem_lovelace (c : Int) (st : Int × MultiAsset) :
+    bfItem (.obj [("unit", .str "lovelace"), ("quantity", .str (intStr c))]) st = .ok (c, st.2) := by
+  simp [bfItem, J.field, J.lookup, J.asStr, pyInt_intStr]
+
+theorem bfAmount_render (u : UTxOModel) (h : WellFormed u) :
+    bfAmount (.obj [("unit", .str "lovelace"), ("quantity", .str (intStr u.coin))] :: (flatten u.ma).map bfEntry) (0, [])
+      = .ok (u.coin, u.ma) := by
+  simp only [bfAmount, bfItem_lovelace, ok_bind]
+  rw [bfAmount_entries _ _ (flatten_entryOK u.ma h.sizes), h.rebuild]
+
+theorem shownHash_cases (aux : Aux) (u : UTxOModel) (hx : u.datumHash.isNone ∨ u.datum.isNone) :
+    (u.datumHash = none ∧ u.datum = none ∧ shownHash aux u = none) ∨
+    (∃ h, u.datumHash = some h ∧ u.datum = none ∧ shownHash aux u = some h) ∨
+    (∃ p, u.datumHash = none ∧ u.datum = some p ∧ shownHash aux u = some aux.inlineHash) := by
+  cases hh : u.datumHash with
+  | some h =>
+    have : u.datum = none := by simpa [hh] using hx
+    right; left; exact ⟨h, rfl, this, by simp [shownHash, hh]⟩
+  | none =>
+    cases hd : u.datum with
+    | none => left; exact ⟨rfl, rfl, by simp [shownHash, hh, hd]⟩
+    | some p => right; right; exact ⟨p, rfl, rfl, by simp [shownHash, hh, hd]⟩
+
+theorem bfDatumHash_render (aux : Aux) (u : UTxOModel) (hw : WellFormed u) (hb : bytesPayload u.datum = true) :
+    bfDatumHash (.obj (bfMembers aux u)) = .ok u.datumHash := by
+  have l1 : J.lookup (bfMembers aux u) "data_hash" = some (optStr (shownHash aux u)) := by simp [bfMembers, J.lookup]
+  have l2 : J.lookup (bfMembers aux u) "inline_datum" = some (datumHexJ u.datum) := by simp [bfMembers, J.lookup]
+  rcases shownHash_cases aux u hw.2.2.2.2.2.2 with ⟨h1, h2, h3⟩ | ⟨h, h1, h2, h3⟩ | ⟨p, h1, h2, h3⟩
+  · simp [bfDatumHash, J.field, l1, h3, h1, optStr, J.truthy]
+  · have hl : h.length = 32 := hw.2.2.2.2.2.1 h (by simp [h1])
+    have hne : hexStr h ≠ "" := hexStr_ne_empty h (by intro h0; simp [h0] at hl)
+    simp [bfDatumHash, J.field, l1, l2, h3, h1, h2, optStr, J.truthy, hne, datumHexJ, J.isNull, constrainedJ, J.asStr,
+      constrained_hexStr 32 32 h (by omega)]
+  · rw [h2] at hb
+    rcases datumHexJ_cases (some p) hb with ⟨hc, _⟩ | ⟨b, hne, hp, hj⟩
+    · simp at hc
+    · simp only [bfDatumHash, J.field, l1, l2, h3, h1, h2, hj, optStr, J.truthy, J.isNull, ok_bind]
+      split <;> simp
+
+theorem bfDatum_render (aux : Aux) (u : UTxOModel) (hb : bytesPayload u.datum = true) :
+    bfDatum (.obj (bfMembers aux u)) = .ok u.datum := by
+  have l2 : J.lookup (bfMembers aux u) "inline_datum" = some (datumHexJ u.datum) := by simp [bfMembers, J.lookup]
+  rcases datumHexJ_cases u.datum hb with ⟨hc, hj⟩ | ⟨b, hne, hp, hj⟩
+  · simp [bfDatum, J.hasKey, J.field, l2, datumHexJ, J.isNull, hc]
+  · simp [bfDatum, J.hasKey, J.field, l2, datumHexJ, J.isNull, hp, J.asStr, fromHex_hexStr]
+
+theorem bfScript_render (aux : Aux) (s : ScriptM) (h : scriptOK [0, 1, 2, 3] (some s) = true) :
+    bfScript (bfSide aux (some s)) (hexStr aux.scriptHash) = .ok s := by
+  obtain ⟨lang, body⟩ := s
+  have t0 : isPlutusType "timelock" = false := by decide
+  have t1 : isPlutusType "plutusV1" = true ∧ lastDigit "plutusV1" = .ok 1 := ⟨by decide, by rfl⟩
+  have t2 : isPlutusType "plutusV2" = true ∧ lastDigit "plutusV2" = .ok 2 := ⟨by decide, by rfl⟩
+  have t3 : isPlutusType "plutusV3" = true ∧ lastDigit "plutusV3" = .ok 3 := ⟨by decide, by rfl⟩
+  cases body with
+  | json j =>
+    simp [scriptOK] at h
+    obtain rfl := h.2
+    simp [bfScript, bfSide, J.lookup, bfScriptInfo, J.field, J.asStr, bfScriptType, t0]
+  | bytes b =>
+    simp [scriptOK] at h
+    rcases h.1 with rfl | rfl | rfl | rfl
+    · exact absurd rfl h.2
+    · simp [bfScript, bfSide, J.lookup, bfScriptInfo, J.field, J.asStr, bfScriptType, t1, fromHex_hexStr]
+    · simp [bfScript, bfSide, J.lookup, bfScriptInfo, J.field, J.asStr, bfScriptType, t2, fromHex_hexStr]
+    · simp [bfScript, bfSide, J.lookup, bfScriptInfo, J.field, J.asStr, bfScriptType, t3, fromHex_hexStr]
+
+theorem bfScriptRef_render (aux : Aux) (u : UTxOModel) (hs : scriptOK [0, 1, 2, 3] u.script = true)
+    (ha : aux.scriptHash.length = 28) :
+    bfScriptRef (bfSide aux u.script) (.obj (bfMembers aux u)) = .ok u.script := by
+  have l : J.lookup (bfMembers aux u) "reference_script_hash" = some (scriptHashJ aux u.script) := by
+    simp [bfMembers, J.lookup]
+  cases hsc : u.script with
+  | none => simp [bfScriptRef, J.hasKey, J.field, l, hsc, scriptHashJ, J.truthy]
+  | some s =>
+    have hne : hexStr aux.scriptHash ≠ "" := hexStr_ne_empty _ (by intro h0; simp [h0] at ha)
+    rw [hsc] at hs
+    simp [bfScriptRef, J.hasKey, J.field, l, hsc, scriptHashJ, J.truthy, hne, J.asStr, bfScript_render aux s hs]
+
+/-! ### Kupo -/
+
+theorem hexStr_inj (a b : Bytes) (h : hexStr a = hexStr b) : a = b := by
+  have := congrArg fromHex h
+  simpa [fromHex_hexStr] using this
+
+/-- what the Kupo path returns for `u`: an inline datum keeps the hash under which Kupo lists it -/
+def kupoImage (aux : Aux) (u : UTxOModel) : UTxOModel := { u with datumHash := shownHash aux u }
+
+theorem kupoScript_render (aux : Aux) (u : UTxOModel) (hs : scriptOK [1, 2, 3] u.script = true)
+    (ha : aux.scriptHash.length = 28) : kupoScript (kupoSide aux u) (scriptHashJ aux u.script) = .ok u.script := by
+  cases hsc : u.script with
+  | none => simp [kupoScript, scriptHashJ, J.truthy]
+  | some s =>
+    rw [hsc] at hs
+    obtain ⟨lang, body⟩ := s
+    have hne : hexStr aux.scriptHash ≠ "" := hexStr_ne_empty _ (by intro h0; simp [h0] at ha)
+    cases body with
+    | json j => simp [scriptOK] at hs; omega
+    | bytes b =>
+      simp [scriptOK] at hs
+      obtain ⟨hv, _⟩ := plutusLang_facts lang hs.1
+      have hr : (1 : Int) ≤ lang ∧ (lang : Int) ≤ 3 := by omega
+      simp [kupoScript, scriptHashJ, J.truthy, hne, J.asStr, kupoSide, hsc, J.lookup, kupoScriptInfo, J.field, hs.2, hv,
+        hr, payloadJ, fromHex_hexStr]
+
+theorem hashIfTruthy_str (h : Bytes) (hl : h.length = 32) : hashIfTruthy (.str (hexStr h)) = .ok (some h) := by
+  simpa [optStr] using hashIfTruthy_optStr (some h) (by simpa using hl)
+
+theorem kupoDatums_render (aux : Aux) (u : UTxOModel) (hw : WellFormed u) (hb : bytesPayload u.datum = true)
+    (ha : u.datum.isSome → aux.inlineHash.length = 32)
+    (hne : u.datum ≠ some (.bytes aux.inlineHash)) :
+    kupoDatums (kupoSide aux u) (optStr (shownHash aux u)) (kupoDatumTypeJ aux u) = .ok (shownHash aux u, u.datum) := by
+  rcases shownHash_cases aux u hw.2.2.2.2.2.2 with ⟨h1, h2, h3⟩ | ⟨h, h1, h2, h3⟩ | ⟨p, h1, h2, h3⟩
+  · simp [kupoDatums, h3, optStr, hashIfTruthy, J.truthy, h2]
+  · have hl : h.length = 32 := hw.2.2.2.2.2.1 h (by simp [h1])
+    simp [kupoDatums, h3, hashIfTruthy_str h hl, kupoDatumTypeJ, h2, J.truthy, kupoDatum, optStr, J.asStr, kupoSide,
+      J.lookup]
+  · rw [h2] at hb
+    rcases datumHexJ_cases (some p) hb with ⟨hc, _⟩ | ⟨b, hbne, hp, hj⟩
+    · simp at hc
+    · have hl : aux.inlineHash.length = 32 := ha (by simp [h2])
+      have hp' : p = .bytes b := by simpa using hp
+      subst hp'
+      have hdiff : hexStr b ≠ hexStr aux.inlineHash := by
+        intro he; apply hne; rw [h2, hexStr_inj _ _ he]
+      simp [kupoDatums, h3, hashIfTruthy_str _ hl, kupoDatumTypeJ, h2, J.truthy, kupoDatum, optStr, J.asStr, kupoSide,
+        J.lookup, J.field, J.eqPrim, hdiff, hexStr_ne_empty b hbne, fromHex_hexStr]
+
+/-! ### entries in any order -/
+
+theorem qty_put (ma : MultiAsset) (p n : Bytes) (q : Int) (p' n' : Bytes) :
+    MultiAsset.qty (put ma p n q) p' n' = if p = p' ∧ n = n' then q else MultiAsset.qty ma p' n' := by
+  unfold MultiAsset.qty put Asset.qty
+  rw [getD_set]
+  by_cases hp : p = p'
+  · subst hp
+    rw [if_pos rfl, getD_set]
+    by_cases hn : n = n' <;> simp [hn]
+  · simp [hp]
+
+/-- the key of an entry -/
+def entryKey (e : Bytes × Bytes × Int) : Bytes × Bytes := (e.1, e.2.1)
+
+theorem qty_putAll_absent (es : List (Bytes × Bytes × Int)) (ma : MultiAsset) (p n : Bytes)
+    (h : (p, n) ∉ es.map entryKey) : MultiAsset.qty (putAll es ma) p n = MultiAsset.qty ma p n := by
+  induction es generalizing ma with
+  | nil => simp [putAll]
+  | cons e r ih =>
+    simp only [List.map_cons, List.mem_cons, not_or] at h
+    simp only [putAll, List.foldl_cons] at ih ⊢
+    rw [ih _ h.2, qty_put]
+    have : ¬ (e.1 = p ∧ e.2.1 = n) := by
+      rintro ⟨rfl, rfl⟩; exact h.1 rfl
+    simp [this]
+
+/-- entries with pairwise distinct (policy, name), inserted in ANY order (not necessarily grouped by policy),
+each keep their own quantity -/
+theorem qty_putAll_mem (es : List (Bytes × Bytes × Int)) (ma : MultiAsset) (p n : Bytes) (q : Int)
+    (hd : (es.map entryKey).Nodup) (hm : (p, n, q) ∈ es) : MultiAsset.qty (putAll es ma) p n = q := by
+  induction es generalizing ma with
+  | nil => simp at hm
+  | cons e r ih =>
+    simp only [List.map_cons, List.nodup_cons] at hd
+    simp only [putAll, List.foldl_cons] at ih ⊢
+    rcases List.mem_cons.1 hm with rfl | hr
+    · have := qty_putAll_absent r (put ma p n q) p n hd.1
+      simp only [putAll] at this
+      rw [this, qty_put]; simp
+    · exact ih _ hd.2 hr
+
 end Pyc.Backends
